@@ -75,6 +75,8 @@ structure Gsf (s : St) : Prop where
   sfReq : (runR C02.sfStep {} s.out).req = activeReq s.requestD
   sfTimer : (runR C02.sfStep {} s.out).timer = retryPending s.retryCall
   retryRun : retryPending s.retryCall = true → s.startD ≠ .none
+  parkedReq : s.parked.isSome = true → ∃ k, s.requestD = .parked k
+  parkedBlock : s.parked.isSome = true → s.msgBlock = true
 
 /-- resume position (`C03.resStep`) -/
 structure Gres (s : St) : Prop where
